@@ -4,9 +4,54 @@
 #include "../tr/c05_drv.cpp"
 #include "gen/c05_dispatch.inc"
 
+// ---- integer instantiations (not translated: the same templates with T = int32_t, whose "infinities" are the type's
+// extremes from constants.h). Decimal int arguments; judged by the integer oracle of props/c05.py only.
+namespace ii {
+using namespace rkcommon::math;
+struct In {
+  const std::vector<long long> &x;
+  size_t p;
+  int s() { return p < x.size() ? (int)x[p++] : 0; }
+  vec3i v() { int a = s(), b = s(), c = s(); return vec3i(a, b, c); }
+  range1i r() { int a = s(), b = s(); return range1i(a, b); }
+  box3i b() { vec3i a = v(), c = v(); return box3i(a, c); }
+};
+static std::string show(int v) { return std::to_string(v); }
+static std::string show(const vec3i &v) { return show(v.x) + " " + show(v.y) + " " + show(v.z); }
+static std::string show(const range1i &r) { return show(r.lower) + " " + show(r.upper); }
+static std::string show(const box3i &b) { return show(b.lower) + " " + show(b.upper); }
+static std::string run(const std::vector<std::string> &w)
+{
+  std::vector<long long> xs;
+  for (size_t i = 1; i < w.size(); i++) xs.push_back(std::stoll(w[i]));
+  In in{xs, 0};
+  const std::string &n = w[0];
+  if (n == "i_r1_default") { range1i r; return show(r) + " " + (r.empty() ? "1" : "0"); }
+  if (n == "i_b3_default") { box3i b; return show(b) + " " + (b.empty() ? "1" : "0"); }
+  if (n == "i_r1_extend_s") { range1i r = in.r(); int t = in.s(); r.extend(t); return show(r); }
+  if (n == "i_r1_extend_r") { range1i r = in.r(), t = in.r(); r.extend(t); return show(r); }
+  if (n == "i_r1_def_extend_s") { range1i r; int t = in.s(); r.extend(t); return show(r); }
+  if (n == "i_r1_extend_def") { range1i r = in.r(); r.extend(range1i()); return show(r); }
+  if (n == "i_r1_contains") { range1i r = in.r(); int t = in.s(); return r.contains(t) ? "1" : "0"; }
+  if (n == "i_r1_empty") { range1i r = in.r(); return r.empty() ? "1" : "0"; }
+  if (n == "i_b3_extend_p") { box3i b = in.b(); vec3i p = in.v(); b.extend(p); return show(b); }
+  if (n == "i_b3_extend_b") { box3i b = in.b(), c = in.b(); b.extend(c); return show(b); }
+  if (n == "i_b3_def_extend_p") { box3i b; vec3i p = in.v(); b.extend(p); return show(b); }
+  if (n == "i_b3_extend_def") { box3i b = in.b(); b.extend(box3i()); return show(b); }
+  if (n == "i_b3_contains") { box3i b = in.b(); vec3i p = in.v(); return b.contains(p) ? "1" : "0"; }
+  if (n == "i_b3_empty") { box3i b = in.b(); return b.empty() ? "1" : "0"; }
+  if (n == "i_b3_inter") { box3i b = in.b(), c = in.b(); return show(intersectionOf(b, c)); }
+  if (n == "i_b3_disjoint") { box3i b = in.b(), c = in.b(); return disjoint(b, c) ? "1" : "0"; }
+  if (n == "i_b3_touch") { box3i b = in.b(), c = in.b(); return touchingOrOverlapping(b, c) ? "1" : "0"; }
+  return "bad-op";
+}
+}  // namespace ii
+
 int main()
 {
   return vh::run([]() {}, [](const std::vector<std::string> &w) -> std::string {
+    if (w[0].compare(0, 2, "i_") == 0)
+      return ii::run(w);
     std::vector<float> xs;
     for (size_t i = 1; i < w.size(); i++)
       xs.push_back(vh::f32_of_tok(w[i]));
